@@ -13,7 +13,7 @@ P2  the sweep node inside a surrounding pipeline whose later nodes consume <var>
 """
 from __future__ import annotations
 
-from typing import Any, Dict, List
+from typing import Optional, Any, Dict, List
 
 from vt.props import C01
 from vt.runner import Fail, Ob
@@ -103,6 +103,37 @@ def _replay_u1(param, a):
     if v is True:
         return {"reproduced": False, "fingerprint": "", "detail": "documented order on the concrete input"}
     return {"reproduced": True, "fingerprint": v.fingerprint, "detail": v.detail}
+
+
+# --------------------------------------------------------------------------------------------- U3
+def _u3(in_base_a: bool, in_base_b: bool, in_expr_a: bool, in_expr_b: bool, va: Optional[int], vb: Optional[int], ea: Optional[int], eb: Optional[int]):
+    """_merge_call_parameters: computed-by-expression > node-provided, every provided name is passed on WITH ITS VALUE --
+    values range over int | None (an explicit None is a value, not an absence)."""
+    from semantiva.data_processors.parametric_sweep_factory import _merge_call_parameters
+
+    base: Dict[str, Any] = {}
+    if in_base_a:
+        base["a"] = va
+    if in_base_b:
+        base["b"] = vb
+    expr: Dict[str, Any] = {}
+    if in_expr_a:
+        expr["a"] = ea
+    if in_expr_b:
+        expr["b"] = eb
+    before = (dict(base), dict(expr))
+    got = _merge_call_parameters(base_kwargs=base, expression_outputs=expr)
+    exp = dict(before[0])
+    exp.update(before[1])
+    if set(got) != set(exp):
+        return Fail("C03.U3:merged-names", "merged call parameters have names %r, documented %r" % (sorted(got), sorted(exp)))
+    for k in exp:
+        g, e = got[k], exp[k]
+        if not ((g is None and e is None) if (g is None or e is None) else (g == e)):
+            return Fail("C03.U3:merged-value:%s" % k, "parameter %s is not the %s value" % (k, "computed" if k in before[1] else "node-provided"))
+    if base != before[0] or expr != before[1]:
+        return Fail("C03.U3:inputs-mutated", "the caller's mappings were modified")
+    return True
 
 
 # --------------------------------------------------------------------------------------------- U2
@@ -367,6 +398,7 @@ def obligations(tier: str) -> List[Ob]:
     return [
         Ob("C03.U1", _make_u1, _replay_u1, params=[(ml, sh, nv) for sh in (0, 1, 2) for nv in (1, 2, 3)], budget=300 if not big else 1500, bound="1..3 variables, each a symbolic list of length 1..%d with symbolic elements (scalars, 2-lists or 2-tuples by a symbolic selector); mode and broadcast symbolic; whole step list compared; inputs unmodified" % ml, targets=["semantiva/data_processors/parametric_sweep_factory.py:_iterate_sweep"]),
         Ob("C03.U2", lambda _p: _u2, R(_u2), budget=240, bound="SequenceSpec/FromContext with symbolic lists (len<=3; missing key, empty, string); RangeSpec linear over 8 integer-grid cases vs closed form", targets=["semantiva/data_processors/parametric_sweep_factory.py:_materialize_sequences"]),
+        Ob("C03.U3", lambda _p: _u3, R(_u3), budget=120, bound="two parameter names, each present/absent in node-provided and computed mappings (4 flags), values symbolic over int | None", targets=["semantiva/data_processors/parametric_sweep_factory.py:_merge_call_parameters"]),
         Ob("C03.U4", lambda _p: _u4, R(_u4), budget=120, bound="8 variable-spec shapes (list, [lo,hi], {lo,hi,steps,endpoint}, {values}, {from_context}, 3 illegal) with symbolic numbers", targets=["semantiva/pipeline/node_preprocess.py:_convert_var_specs"]),
         Ob("C03.P1", _make_p1, _replay_p1, params=p1_params, budget=600 if not big else 1800, per_path=60,
            bound="3 wrapped kinds x 5 expressions; payload, sequences t (config) and s (from_context) symbolic lists of length 1..%d, mode/broadcast symbolic, non-swept parameter b placed by symbolic flags in config/context/default, from_context key present or not" % (2 if not big else 3),
